@@ -72,7 +72,7 @@ impl Prop for C07 {
         "exploration"
     }
     fn rule(&self) -> String {
-        "run = one seeded encrypted workload (E or C+E, 1..4 recipients - one run in 12: 9, 17, 85, 129, 257 or 300, of which the first, second, 9th, middle, 256th/257th, last ones and two random ones are tried -, names and contents made of unique high-entropy markers, sizes around the 4 KiB cipher buffer and the 128 KiB chunk) on the unmodified `prod` build, or on `prodv` with NO seed installed in hook H2 (showing the hook is inert by default); the real OS generator is used. The same operations are executed 8 times in the worker process and, on one run in eight, once in each of two freshly spawned processes as their first action: symmetric key (from get_encrypt_parameters), archive nonce and ephemeral public key must be pairwise distinct over all these archives. Sink monitor: no 16-byte marker of any content and no file name occurs anywhere in the bytes the sink received after the header (searched on the whole stored stream, so a marker split across writes is seen). Key lists: every recipient opens the archive and reads it back, alone and at the first three positions among decoy keys (now and then behind 9..40 decoys); lists without a recipient key, and the empty list, fail to open. distinct_nontrivial = distinct (variant, layers, recipients, reader position class, size class, cross-process?) signatures.".into()
+        "run = one seeded encrypted workload (E or C+E, 1..4 recipients - one run in 12: 9, 17, 85, 129, 257 or 300, of which the first, second, 9th, middle, 256th/257th, last ones and two random ones are tried -, names and contents made of unique high-entropy markers, sizes around the 4 KiB cipher buffer and the 128 KiB chunk) on the unmodified `prod` build, or on `prodv` with NO seed installed in hook H2 (showing the hook is inert by default); the real OS generator is used. The same operations are executed 8 times in the worker process - five times on the worker's thread, three times each on a thread of its own (spawned and joined at once) - and, on one run in eight, once in each of two freshly spawned processes as their first action: symmetric key (from get_encrypt_parameters), archive nonce and ephemeral public key must be pairwise distinct over all these archives. Sink monitor: no 16-byte marker of any content and no file name occurs anywhere in the bytes the sink received after the header (searched on the whole stored stream, so a marker split across writes is seen). Key lists: every recipient opens the archive and reads it back, alone and at the first three positions among decoy keys (now and then behind 9..40 decoys); lists without a recipient key, and the empty list, fail to open. distinct_nontrivial = distinct (variant, layers, recipients, reader position class, size class, cross-process?) signatures.".into()
     }
     fn assumptions(&self) -> Vec<String> {
         vec![
@@ -151,11 +151,21 @@ impl Prop for C07 {
                 v.push(Violation::new("secret-repeated", format!("ephemeral|{what}"), format!("the ephemeral public key of archive #{total} ({what}) was already used by an earlier archive")));
             }
         };
-        for _ in 0..n_inproc {
+        for rep in 0..n_inproc {
             ctx.eval();
-            match secrets(s, &case.cfg, &case.ops) {
+            // repetitions 2, 5 and 6 run on a thread of their own (spawned and joined at once: one thread runs at a
+            // time, the order is fixed), as the first and only archive that thread creates
+            let on_thread = matches!(rep, 2 | 5 | 6);
+            let res = if on_thread {
+                crate::seams::fired("archive_created_on_its_own_thread");
+                let (cfg, ops) = (case.cfg.clone(), case.ops.clone());
+                std::thread::spawn(move || secrets(sut(&cfg.variant), &cfg, &ops)).join().unwrap_or_else(|_| Err("the writer thread panicked".into()))
+            } else {
+                secrets(s, &case.cfg, &case.ops)
+            };
+            match res {
                 Ok((img, (k, n, e))) => {
-                    add(k, n, e, "same-process", &mut v, &mut total);
+                    add(k, n, e, if on_thread { "own-thread" } else { "same-process" }, &mut v, &mut total);
                     if first_image.is_none() {
                         first_image = Some(img);
                     }
